@@ -303,6 +303,8 @@ def main(argv=None):
             continue
         merge_into(acc, r)
     violations.extend(acc.pop("violations", []))
+    if hasattr(mod, "post_merge"):
+        violations.extend(mod.post_merge(acc))
 
     if args.digest_only:
         from sim.seeds import digest
